@@ -115,7 +115,7 @@ impl ZonedDateTime {
         let provider = TZ_PROVIDER
             .lock()
             .map_err(|_| TemporalError::general("Unable to acquire lock"))?;
-        self.millisecond_with_provider(&*provider)
+        self.microsecond_with_provider(&*provider)
     }
 
     /// Enable with the `compiled_data` feature flag.
@@ -124,7 +124,7 @@ impl ZonedDateTime {
             .lock()
             .map_err(|_| TemporalError::general("Unable to acquire lock"))?;
 
-        self.millisecond_with_provider(&*provider)
+        self.nanosecond_with_provider(&*provider)
     }
 
     /// Returns the current offset as a formatted offset string.
